@@ -38,12 +38,12 @@ theorem locate_cases (N : Nat) (x : Nat → Rat) (st : Interp.LState) (v : Rat) 
   simp only []
   by_cases h1 : v < x 0 ∨ v > x (N - 1)
   · rw [if_pos h1]
-    by_cases h2 : rabs (v - x 0) < 1 / 100 * (x 1 - x 0)
+    by_cases h2 : rabs (v - x 0) ≤ 1 / 100 * (x 1 - x 0)
     · rw [if_pos h2]
       left
       refine ⟨Or.inr (Or.inl (by linarith)), _, _, rfl⟩
     · rw [if_neg h2]
-      by_cases h3 : rabs (v - x (N - 1)) < 1 / 100 * (x (N - 1) - x (N - 2))
+      by_cases h3 : rabs (v - x (N - 1)) ≤ 1 / 100 * (x (N - 1) - x (N - 2))
       · rw [if_pos h3]
         left
         refine ⟨Or.inr (Or.inr (by linarith)), _, _, rfl⟩
@@ -145,13 +145,13 @@ theorem locate_ok_bound (N : Nat) (x : Nat → Rat) (st : LState) (v : Rat) (hN 
   simp only [] at h
   by_cases h1 : v < x 0 ∨ v > x (N - 1)
   · rw [if_pos h1] at h
-    by_cases h2 : rabs (v - x 0) < 1 / 100 * (x 1 - x 0)
+    by_cases h2 : rabs (v - x 0) ≤ 1 / 100 * (x 1 - x 0)
     · rw [if_pos h2] at h
       simp only [Except.ok.injEq, Prod.mk.injEq] at h
       obtain ⟨rfl, rfl⟩ := h
       exact ⟨by omega, rfl⟩
     · rw [if_neg h2] at h
-      by_cases h3 : rabs (v - x (N - 1)) < 1 / 100 * (x (N - 1) - x (N - 2))
+      by_cases h3 : rabs (v - x (N - 1)) ≤ 1 / 100 * (x (N - 1) - x (N - 2))
       · rw [if_pos h3] at h
         simp only [Except.ok.injEq, Prod.mk.injEq] at h
         obtain ⟨rfl, rfl⟩ := h
